@@ -130,7 +130,7 @@ pub fn stub_l_step(msg: [u8; 16], i: usize) -> [u8; 16] {
     k::unpack(uf_lstep::call(k::pack(&msg), i))
 }
 
-//@ harness name=kuz_compact_leaf_lstep prop=C07,C20 tier=quick bits=133 quick=C20 est=50 desc="L (one step, all states): for every state m in {0,1}^128 and every step index i in 0..16 (symbolic): l_step(m, i) read through the rotating-index correspondence == R of the oracle applied to the logical word, and l_step(m, 15 - i) == R^-1 of the oracle (the in-place LFSR of the crate vs the shifting array of the standard; GFT_* tables vs the oracle's field multiplication); helped by checked hint lemmas (table product == oracle product per octet, partial-sum re-association)"
+//@ harness name=kuz_compact_leaf_lstep prop=C07,C20 tier=quick bits=133 quick=C20 est=65 desc="L (one step, all states): for every state m in {0,1}^128 and every step index i in 0..16 (symbolic): l_step(m, i) read through the rotating-index correspondence == R of the oracle applied to the logical word, and l_step(m, 15 - i) == R^-1 of the oracle (the in-place LFSR of the crate vs the shifting array of the standard; GFT_* tables vs the oracle's field multiplication); helped by checked hint lemmas (table product == oracle product per octet, partial-sum re-association)"
 verif_harness! {
     name: kuz_compact_leaf_lstep,
     bytes: 18,
@@ -164,7 +164,7 @@ verif_harness! {
     }
 }
 
-//@ harness name=kuz_compact_leaf_lsx prop=C07,C20 tier=quick bits=256 stub=1 quick=C20 est=60 desc="W (composition): lsx(b, k) == oracle L(S(b ^ k)) for all 2^256 (b, k): the real lsx (X, S through P, sixteen l_step(., i) in its order) with l_step an uninterpreted function of (state, index) and the oracle's linear form l_func an uninterpreted function; assumed: the sixteen instances of the one-step lemma kuz_compact_leaf_lstep at the states passed through"
+//@ harness name=kuz_compact_leaf_lsx prop=C07,C20 tier=quick bits=256 stub=1 quick=C20 est=80 desc="W (composition): lsx(b, k) == oracle L(S(b ^ k)) for all 2^256 (b, k): the real lsx (X, S through P, sixteen l_step(., i) in its order) with l_step an uninterpreted function of (state, index) and the oracle's linear form l_func an uninterpreted function; assumed: the sixteen instances of the one-step lemma kuz_compact_leaf_lstep at the states passed through"
 verif_harness! {
     name: kuz_compact_leaf_lsx,
     bytes: 32,
@@ -201,7 +201,7 @@ verif_harness! {
     }
 }
 
-//@ harness name=kuz_compact_leaf_lsx_inv prop=C07,C20 tier=quick bits=256 stub=1 quick=C20 est=55 desc="W (composition): lsx_inv(b, k) == oracle S^-1(L^-1(b ^ k)) for all 2^256 (b, k): the real lsx_inv (X, sixteen l_step(., 15 - i), S^-1 through P_INV) with l_step an uninterpreted function of (state, index) and the oracle's l_func an uninterpreted function; assumed: the sixteen instances of the one-step lemma kuz_compact_leaf_lstep (R^-1 half) at the states passed through"
+//@ harness name=kuz_compact_leaf_lsx_inv prop=C07,C20 tier=quick bits=256 stub=1 quick=C20 est=70 desc="W (composition): lsx_inv(b, k) == oracle S^-1(L^-1(b ^ k)) for all 2^256 (b, k): the real lsx_inv (X, sixteen l_step(., 15 - i), S^-1 through P_INV) with l_step an uninterpreted function of (state, index) and the oracle's l_func an uninterpreted function; assumed: the sixteen instances of the one-step lemma kuz_compact_leaf_lstep (R^-1 half) at the states passed through"
 verif_harness! {
     name: kuz_compact_leaf_lsx_inv,
     bytes: 32,
@@ -241,7 +241,7 @@ verif_harness! {
 
 // ---------------------------------------------------------------------------------------------------------- key schedule
 
-//@ harness name=kuz_compact_keys prop=C07,C20 tier=quick bits=256 stub=1 quick=C20 est=85 need=4 desc="W: round keys of KuznyechikEnc::new(key) (compact_soft expand) == oracle K1..K10 (Feistel key schedule with the computed C_1..C_32) for all 2^256 keys; lsx(b, k) := LS(b ^ k) where LS is ONE uninterpreted function shared with the oracle's L S (32 applications per side)"
+//@ harness name=kuz_compact_keys prop=C07,C20 tier=quick bits=256 stub=1 quick=C20 est=100 need=4 desc="W: round keys of KuznyechikEnc::new(key) (compact_soft expand) == oracle K1..K10 (Feistel key schedule with the computed C_1..C_32) for all 2^256 keys; lsx(b, k) := LS(b ^ k) where LS is ONE uninterpreted function shared with the oracle's L S (32 applications per side)"
 verif_harness! {
     name: kuz_compact_keys,
     bytes: 32,
@@ -254,7 +254,7 @@ verif_harness! {
 // lsx := L S X, lsx_inv := S^-1 L^-1 X with S, L uninterpreted inverse pairs (kz_common); arbitrary round keys (a superset of
 // the key schedule's outputs): with kuz_compact_keys this is conformance for all keys.
 
-//@ harness name=kuz_compact_enc_rk prop=C07,C03,C12,C20 tier=quick bits=1408 stub=1 quick=C03 est=20 desc="W: KuznyechikEnc over arbitrary round keys: encrypt_block == oracle E (9 LSX rounds + X), all round keys, all blocks"
+//@ harness name=kuz_compact_enc_rk prop=C07,C03,C12,C20 tier=quick bits=1408 stub=1 quick=C03 est=25 desc="W: KuznyechikEnc over arbitrary round keys: encrypt_block == oracle E (9 LSX rounds + X), all round keys, all blocks"
 verif_harness! {
     name: kuz_compact_enc_rk,
     bytes: 160 + 16,
@@ -299,7 +299,7 @@ verif_harness! {
 // This back end decrypts with the standard's own structure over the encryption round keys (no pre-transformed keys, no
 // linearity assumption).
 
-//@ harness name=kuz_compact_dec_rk_val prop=C07,C03,C12,C20 tier=quick bits=1408 stub=1 quick=C03 est=45 desc="W: KuznyechikDec::from(enc) (by value) over arbitrary encryption round keys: decrypt_block == oracle D = X[K1] S^-1 L^-1 X[K2] ... S^-1 L^-1 X[K10], all round keys, all blocks"
+//@ harness name=kuz_compact_dec_rk_val prop=C07,C03,C12,C20 tier=quick bits=1408 stub=1 quick=C03 est=50 desc="W: KuznyechikDec::from(enc) (by value) over arbitrary encryption round keys: decrypt_block == oracle D = X[K1] S^-1 L^-1 X[K2] ... S^-1 L^-1 X[K10], all round keys, all blocks"
 verif_harness! {
     name: kuz_compact_dec_rk_val,
     bytes: 160 + 16,
